@@ -87,7 +87,8 @@ def Rx.anyClass (p : CClass → Bool) : Rx → Bool
   | _ => false
 
 /-- F12s trigger, on the pattern text: inside a class expression (bracket depth >= 1) there is
-a backslash followed by `\`, `$` or a character that is no XSD escape letter, or an escape
+a backslash followed by `\`, `$`, a character that is no XSD escape letter or a malformed
+`\p{..}`, or an escape
 sequence immediately preceded by `-` or immediately followed by `-` -/
 def scanTrigger (s : List Ch) : Bool :=
   let escLetters : List Ch := (nameOf "nrt|.?*+(){}-[]^sSdDiIcCwWpP")
@@ -99,16 +100,45 @@ def scanTrigger (s : List Ch) : Bool :=
     | [] => false
     | 92 :: e :: rest =>
       if depth == 0 then go fuel rest depth (some e) else
-      let bad := !escLetters.contains e
+      let bad := !escLetters.contains e || ((e == 112 || e == 80) && (pPropName rest).isNone)
       let before := prev == some 45
       -- end of the escape: `\p{..}` runs to the closing brace
       let rest' := if e == 112 || e == 80 then (match rest.dropWhile (· != 125) with | _ :: r => r | [] => []) else rest
       let after := match rest' with | 45 :: _ => true | _ => false
-      if bad || before || after then true else go fuel rest' depth (some 0)
+      if bad || before || after then true else go fuel rest' depth (some (if e == 45 then 45 else 0))
     | 91 :: rest => go fuel rest (depth + 1) none
     | 93 :: rest => go fuel rest (depth - 1) (some 93)
     | c :: rest => go fuel rest depth (some c)
   go (s.length + 1) s 0 none
+
+def implT : MTables :=
+  { esc := fun e => if e == 115 then implEsc .s else if e == 100 then implEsc .d else if e == 119 then implEsc .w
+                    else if e == 105 then implEsc .i else implEsc .c,
+    prop := propLookup }
+
+/-- `CLS v=<10|11> x=<0|1> src=<cps of the whole class text> probes=<cps>`
+  -> model=<bits|ERR> spec=<bits|BAD> unclear=<0|1> f12=<0|1> scan=<0|1>
+  model: the transcribed class scanner + `CharacterClass` algebra; spec: grammar + XSD set -/
+def answerCls (fs : List (String × String)) : String :=
+  match parseCps (field fs "src"), parseCps (field fs "probes") with
+  | some src, some probes =>
+    let v10 := field fs "v" == "10"
+    let o : Opts := { xpath := field fs "x" == "1" }
+    let b (x : Bool) := if x then "1" else "0"
+    let model := match parseClassText implT v10 src with
+      | none => "ERR"
+      | some cc => bits (probes.map fun x => decide (x < maxCP1) && cc.contains x)
+    let (spec, unclear, f12) := match src with
+      | 91 :: rest =>
+        match pClass o (3 * rest.length + 4) rest {} with
+        | some (c, [], st) =>
+          match c.toClassE specT with
+          | some e => (bits (probes.map fun x => specClass e x), st.unclear, e.f12)
+          | none => ("BAD", st.unclear, false)
+        | _ => ("BAD", false, false)
+      | _ => ("BAD", false, false)
+    s!"model={model} spec={spec} unclear={b unclear} f12={b f12} scan={b (scanTrigger src)}"
+  | _, _ => "bad-cls"
 
 def flagsOf (f : String) : Flags := { dotAll := f.contains 's', multi := f.contains 'm' }
 
@@ -189,6 +219,7 @@ def answer (line : String) : String :=
   let line := line.trimAscii.toString
   if line.startsWith "PAT " then answerPat (fields (line.drop 4).toString)
   else if line.startsWith "FUN " then answerFun (fields (line.drop 4).toString)
+  else if line.startsWith "CLS " then answerCls (fields (line.drop 4).toString)
   else "bad-line"
 
 end EPV.Regex
